@@ -1481,11 +1481,64 @@ def noexcept_user(ctx, rid, files, floor=0):
             # (a member of the payload type itself, or a function that is handed a payload object - not merely a member
             # of a container whose element type mentions it)
             if not (is_user_call(f, st) or c.get("qname", "").startswith("vdrv::") or
-                    any("vdrv::" in p_ for p_ in c.get("params", []))):
+                    any(strip_cvref(p_).startswith("vdrv::") for p_ in c.get("params", []))):
                 continue
             bad = "%s at %s may throw" % (c.get("qname", "?")[:80], f.loc(st))
             break
         ctx.ob(rid, bad is None, f.where, "noexcept %s cannot be left by an exception" % f.name, bad or "", fn=f.label, inst=f.qname)
+
+
+def memberwise_moves(ctx, rid, files):
+    """a hand-written move assignment / move constructor transfers the WHOLE state: every data member the defaulted
+    operation would have moved is taken over from the source (assigned, exchanged, swapped or initialised from it).  A
+    member that is forgotten keeps its old value in the target - a handle that was cancelled stays cancelled although it
+    now carries a live copy, a flag that said 'released' keeps saying so."""
+    n = 0
+    for r in ctx.fb.records():
+        if r.dependent or not any(r.file.endswith("/" + x) for x in files):
+            continue
+        ms = [m for m in r.d.get("methods", []) if (m.get("move_assign") or m.get("move_ctor")) and m.get("user_provided")
+              and not m.get("deleted")]
+        if not ms:
+            continue
+        fields = [fl["name"] for fl in r.fields if not is_mutex_type(fl["type"]) and "condition_variable" not in fl["type"]
+                  and not fl.get("const") and not fl["type"].rstrip().endswith("&")]
+        for m in ms:
+            for g in ctx.fb.functions(rec=r.tmpl or r.qname):
+                if g.recq != r.qname or g.id != m.get("id") or not g.params:
+                    continue
+                src = "p:" + g.params[0]["name"]
+                taken = set()
+                for i in g.inits:
+                    if i.get("field") and i.get("written"):
+                        e = g.s(i.get("init"))
+                        if e is not None and any((path(g, d) or "").startswith(src) for d in g.descendants(e)):
+                            taken.add(i["field"])
+                for st in g.stmts.values():
+                    tgt = None
+                    if st["k"] == "CXXOperatorCallExpr" and st.get("op") == "=" and len(st["args"]) == 2:
+                        tgt, rhs = g.s(st["args"][0]), g.s(st["args"][1])
+                    elif st["k"] == "BinaryOperator" and st.get("op") == "=":
+                        tgt, rhs = g.children(st)
+                    elif st["k"] in CALLS and (callee_fq(st) == "std::swap" or (st.get("callee") or {}).get("name") == "swap"):
+                        for a in [g.s(x) for x in st.get("args", [])] + ([g.s(st["obj"])] if st.get("obj") else []):
+                            p_ = path(g, a) or ""
+                            if p_.startswith("this."):
+                                taken.add(p_[5:].split(".")[0].split("->")[0])
+                        continue
+                    if tgt is None:
+                        continue
+                    tp = path(g, tgt) or ""
+                    if tp.startswith("this.") and any((path(g, d) or "").startswith(src) for d in g.descendants(rhs)):
+                        taken.add(tp[5:].split(".")[0].split("->")[0])
+                    if tp == "*this" or tp == "this":
+                        taken |= set(fields)        # whole-object assignment / delegation
+                missing = [x for x in fields if x not in taken]
+                n += 1
+                ctx.ob(rid, not missing, g.where, "%s of %s takes over every member from its source" % (
+                    "move assignment" if m.get("move_assign") else "move constructor", r.name), "" if not missing else
+                    "member(s) %s are not transferred: the target keeps its own old value for them" % missing, fn=g.label, inst=g.qname)
+    return n
 
 
 def value_categories(ctx, rid, files):
@@ -1521,6 +1574,7 @@ def value_categories(ctx, rid, files):
         ctx.ob(rid, not bad, f.loc(bad[0][0]) if bad else f.where, "%s moves from nothing it holds by lvalue reference" % f.name,
                "" if not bad else "std::move(%s): the object belongs to the caller or to a container (it is an lvalue reference "
                "here); it is left moved-from although its owner keeps using it" % bad[0][1], fn=f.label, inst=f.qname)
+    memberwise_moves(ctx, rid, files)
 
 
 # ------------------------------------------------ clang-tidy cross-reference (thorough tier)
